@@ -41,6 +41,11 @@ pub struct Trial {
 pub struct Case {
     pub input: Input,
     pub trials: Vec<Trial>,
+    /// how often each perturbed trial is repeated when looking for a divergence. std's
+    /// `RandomState` (apollo-smith) takes its keys from the OS per thread and cannot be keyed from
+    /// here, so replaying such a divergence means re-sampling threads: input-exact,
+    /// key-probabilistic (DESIGN.md 3.1).
+    pub resample: u32,
 }
 
 fn hex(bytes: &[u8]) -> String {
@@ -62,6 +67,7 @@ impl Case {
         };
         json!({
             "input": input,
+            "resample": self.resample,
             "trials": self.trials.iter().map(|t| json!({
                 "rekey": t.rekey.map(|k| k.to_string()),
                 "idskew": t.idskew.map(|k| k.to_string()),
@@ -93,7 +99,11 @@ impl Case {
                 thread: t["thread"].as_bool().unwrap_or(false),
             })
             .collect();
-        Ok(Case { input, trials })
+        Ok(Case {
+            input,
+            trials,
+            resample: j["resample"].as_u64().unwrap_or(1).clamp(1, 256) as u32,
+        })
     }
 }
 
@@ -149,7 +159,7 @@ pub fn amplified(rng: &mut Rng) -> String {
     let templates = rng.range(2, 5);
     let mut picked = vec![];
     for _ in 0..templates {
-        picked.push(rng.below(12));
+        picked.push(rng.below(16));
     }
     let mut ops = String::new();
     let mut members = vec![];
@@ -294,6 +304,64 @@ pub fn amplified(rng: &mut Rng) -> String {
                     let _ = writeln!(ops, "query Same{} {{ q0 }}", i % 3);
                 }
                 let _ = writeln!(ops, "{{ q0 }} {{ q0 }}");
+            }
+            12 => {
+                // the same response key on an abstract parent and under several concrete types,
+                // all conflicting: every group reports at the one abstract-parent field's location
+                for i in 0..n {
+                    let _ = writeln!(s, "type Conc{i} implements Node {{ id: ID! v{i}: Int w{i}: String }}");
+                }
+                let _ = write!(ops, "query Groups{n} {{ node {{ x: id ");
+                for i in 0..n {
+                    let _ = write!(ops, "... on Conc{i} {{ x: v{i} y: w{i} }} ");
+                }
+                let _ = writeln!(ops, "y: id }} }}");
+            }
+            13 => {
+                // a type that misses many transitive interfaces: all reported at the type
+                for i in 0..n {
+                    let _ = writeln!(s, "interface Tr{i} {{ t{i}: Int }}");
+                }
+                let all: Vec<String> = (0..n).map(|i| format!("Tr{i}")).collect();
+                let _ = write!(s, "interface All{n} implements {} {{", all.join(" & "));
+                for i in 0..n {
+                    let _ = write!(s, " t{i}: Int");
+                }
+                let _ = writeln!(s, " }}");
+                let _ = write!(s, "type Thing{n} implements All{n} {{");
+                for i in 0..n {
+                    let _ = write!(s, " t{i}: Int");
+                }
+                let _ = writeln!(s, " }}");
+            }
+            14 => {
+                // an implementer that lacks every field of a big interface: many errors, one location
+                let _ = write!(s, "interface Wide{n} {{");
+                for i in 0..n {
+                    let _ = write!(s, " w{i}(a: Int): Int");
+                }
+                let _ = writeln!(s, " }}");
+                let _ = writeln!(s, "type Narrow{n} implements Wide{n} {{ other: Int }}");
+                let _ = write!(s, "type Wrong{n} implements Wide{n} {{");
+                for i in 0..n {
+                    let _ = write!(s, " w{i}(a: String, b: Int!): String");
+                }
+                let _ = writeln!(s, " }}");
+            }
+            15 => {
+                // an input object literal that misses many required fields / a field with many
+                // required arguments missing: many errors at one location
+                let _ = write!(s, "input Req{n} {{");
+                for i in 0..n {
+                    let _ = write!(s, " r{i}: Int!");
+                }
+                let _ = writeln!(s, " }}");
+                let _ = write!(s, "extend type Query {{ needs{n}(i: Req{n}");
+                for i in 0..n {
+                    let _ = write!(s, ", q{i}: Int!");
+                }
+                let _ = writeln!(s, "): Int }}");
+                let _ = writeln!(ops, "query Missing{n} {{ needs{n}(i: {{}}) }}");
             }
             _ => {
                 // fragments on undefined / wrong types, spreads that cannot apply, cycles
@@ -509,9 +577,14 @@ pub fn exec_case(case: &Case) -> Result<CaseResult, String> {
     let mut violation = None;
     let mut differing = None;
     for (i, t) in case.trials.iter().enumerate().skip(1) {
-        let created_before = ahash::sim::created();
-        let out = run_trial(&case.input, t)?;
-        let _ = created_before;
+        let mut out = run_trial(&case.input, t)?;
+        for _ in 1..case.resample {
+            if first_difference(&base, &out).is_some() {
+                break;
+            }
+            out = run_trial(&case.input, t)?;
+            add("trials.resampled", 1);
+        }
         add("trials", 1);
         if t.rekey.is_some_and(|k| k != 0) {
             add("perturb.rekey", 1);
@@ -692,7 +765,7 @@ fn process_layer(seed: u64, tier: Tier, units: u64, processes: usize) -> Result<
         for (p, t) in tables.iter().enumerate().skip(1) {
             if t.get(unit) != Some(d0) {
                 let input = input_for(seed, *unit, tier);
-                let case = json!({"process_layer": true, "input": Case { input, trials: vec![] }.to_json()["input"].clone(), "processes": 16});
+                let case = json!({"process_layer": true, "input": Case { input, trials: vec![], resample: 1 }.to_json()["input"].clone(), "processes": 16});
                 violations.push((
                     Violation {
                         class: "output_differs_across_processes".into(),
@@ -733,7 +806,7 @@ fn replay_process_layer(case: &J) -> Result<Option<Violation>, String> {
                 c.stdin
                     .take()
                     .unwrap()
-                    .write_all(Case { input: input.clone(), trials: vec![] }.to_json().to_string().as_bytes())?;
+                    .write_all(Case { input: input.clone(), trials: vec![], resample: 1 }.to_json().to_string().as_bytes())?;
                 c.wait_with_output()
             })
             .map_err(|e| e.to_string())?;
@@ -807,6 +880,7 @@ impl Property for C22 {
         let case = Case {
             input,
             trials: gen_trials(&mut tr, n_trials(tier)),
+            resample: 1,
         };
         let r = match exec_case(&case) {
             Ok(r) => r,
@@ -826,6 +900,17 @@ impl Property for C22 {
             let mut c = case.clone();
             if let Some(i) = r.differing_trial {
                 c.trials = vec![case.trials[0].clone(), case.trials[i].clone()];
+                // a divergence that the controlled key stream does not explain can only come
+                // from state this process cannot key (std RandomState): replay by re-sampling,
+                // on fresh threads
+                let mut controlled = c.clone();
+                controlled.trials[1].thread = false;
+                let explained = matches!(exec_case(&controlled), Ok(r2) if r2.violation.is_some())
+                    && matches!(exec_case(&controlled), Ok(r3) if r3.violation.is_some());
+                if !explained {
+                    c.resample = 64;
+                    c.trials[1].thread = true;
+                }
             }
             rep.violation = Some((v, c.to_json()));
         }
